@@ -173,7 +173,7 @@ theorem C10_at_most_once (cfg : Cfg) (st : St) (evs : List Ev) (id : Ident) :
 theorem C10_recv_report_once (cfg : Cfg) (st : St) (now : Nat) (rx : RxBundle) :
     ((recvBundle cfg st now rx).2.filter isReport).length ≤ 1
     ∧ ∀ i p r, Effect.report i p r ∈ (recvBundle cfg st now rx).2 → i = identOf rx.primary rx.blocks := by
-  rcases recv_cases cfg st now rx with h | ⟨_, c, hc, h⟩
+  rcases recv_cases cfg st now rx with h | ⟨_, c, hc, _, h⟩
   · rw [h]; simp
   · rw [h, dispose_eff, ← hc]
     have h1 := finishEff_report c
